@@ -16,6 +16,8 @@ subprocess.check_call(["git", "-C", "/repo", "worktree", "add", "-q", wt, "HEAD"
 res = {}
 try:
     r = subprocess.run(["git", "-C", wt, "apply", patch], capture_output=True, text=True)
+    if r.returncode != 0:       # the tree has moved on since the change was written (fix commits): merge
+        r = subprocess.run(["git", "-C", wt, "apply", "--3way", patch], capture_output=True, text=True)
     if r.returncode != 0:
         print("PATCH DOES NOT APPLY:", r.stderr); sys.exit(2)
     env = dict(os.environ, VERIF_REPO=wt, VERIF_SEED=seed)
